@@ -12,16 +12,16 @@ from pbt.core import Result, silence, exc_sig
 
 ID = "C15"
 LEVEL = "exploration"
-EXAMPLES = {"quick": 400, "thorough": 9000}
-DEADLINE_S = {"quick": 300, "thorough": 3000}
+EXAMPLES = {"quick": 320, "thorough": 9000}
+DEADLINE_S = {"quick": 420, "thorough": 3000}
 # Hypothesis needs minutes to shrink a network recipe + case list (each attempt re-draws the grid); the quick tier
 # reports the smallest failing case found instead (hand-reduced witnesses are in replays/)
 NO_SHRINK = {"quick": True, "thorough": False}
 POOL_TIMEOUT_S = 600
-REAL_POOLS = {"quick": 4, "thorough": 32}
+REAL_POOLS = {"quick": 2, "thorough": 24}
 RULE = ("Cases as for C14 (meshed networks, ordered N-1 case dict over lines/trafos/trafo3w, limits, options) plus a "
-        "parallel mode: 'pool' = run_contingency_parallel with a real multiprocessing pool and n_procs in {2,3} (4 "
-        "generated cases per quick run, 32 per thorough run, enumerated from VERIF_SEED) or n_procs=1 (1 in 8 "
+        "parallel mode: 'pool' = run_contingency_parallel with a real multiprocessing pool and n_procs in {2,3} (2 "
+        "generated cases per quick run, 24 per thorough run, enumerated from VERIF_SEED) or n_procs=1 (1 in 8 "
         "generated cases); 'sched' = schedule exploration: the multiprocessing module seen by contingency_parallel is "
         "replaced by a shim whose Pool.map runs the worker function per task (pickle round trip of the worker partial "
         "and of its result pack, as a real pool does) and hands the result packs to the aggregation loop in a drawn "
@@ -58,7 +58,8 @@ def strategy(tier):
 
 def enumerate_cases(tier):
     """the real process pools: a fixed small number of generated cases per run (a pool of forked workers costs
-    10-60 s on the verification machine), spread over the shards by the runner; seeded by VERIF_SEED"""
+    20-60 s on the verification machine - copy-on-write page faults of the forked interpreter - and minutes when the
+    machine is loaded), spread over the shards by the runner; seeded by VERIF_SEED; n_procs alternates 2, 3"""
     import os
     from hypothesis import given, settings, seed, HealthCheck, Phase
     try:
@@ -68,12 +69,13 @@ def enumerate_cases(tier):
     out = []
 
     @seed(vs * 7919 + 15)
-    @settings(max_examples=3 * REAL_POOLS[tier], database=None, deadline=None, phases=[Phase.generate],
+    @settings(max_examples=4 * REAL_POOLS[tier] + 4, database=None, deadline=None, phases=[Phase.generate],
               suppress_health_check=list(HealthCheck))
     @given(_case(real_pool=True))
     def collect(case):
         n_tasks = sum(len(ix) for _, ix in case["nm1"])
         if n_tasks >= 2 and len(out) < REAL_POOLS[tier]:
+            case["par"]["n_procs"] = 2 + len(out) % 2
             out.append(case)
     collect()
     return out
@@ -214,7 +216,6 @@ def check(case):
 
     order_s = tasks
     order_p = [tasks[k] for k in schedule] if schedule is not None and len(schedule) == len(tasks) else tasks
-    n_conv = None
     for t in sorted(rs.keys()):
         a, b = rs[t], rp[t]
         index = list(net0[t].index)
@@ -289,8 +290,8 @@ def check(case):
     for t in sorted(rp.keys()):
         cg.check_written(res, net_p, rp, t, list(net0[t].index), opt["write_to_net"], prefix="par/write_to_net")
 
-    # number of converged cases: every executed case leaves a finite or NaN entry; count via the bus maximum key
-    n_conv = _converged_cases(rs, net_s, tasks, case, net0, bf_cache)
+    # number of converged N-1 cases (non-triviality rule): own N-1 loop
+    n_conv = len(brute(tasks))
     res.label("cases-converged:%s" % ("0" if n_conv == 0 else "1" if n_conv == 1 else "2+"))
     res.label("tasks:%s" % ("0-1" if len(tasks) <= 1 else "2-3" if len(tasks) <= 3 else "4+"))
     for k in sorted({c[0] for c in tasks}):
@@ -305,11 +306,3 @@ def check(case):
 
 def _int(c):
     return int(c[1]) if isinstance(c[0], str) else None
-
-
-def _converged_cases(rs, net_s, tasks, case, net0, bf_cache):
-    """number of converged N-1 cases (for the non-triviality rule): brute force if it was needed anyway, otherwise
-    counted with an own N-1 loop"""
-    if "bf" not in bf_cache:
-        bf_cache["bf"] = {r["case"]: r for r in cg.brute_force(net0, tasks, case)}
-    return sum(1 for r in bf_cache["bf"].values() if r["status"] == "ok")
